@@ -633,6 +633,42 @@ Proof.
   rewrite flook_fwrite_same. cbn [fst snd n_fs n_open]. repeat split.
 Qed.
 
+Lemma single_compress_phases : forall known enc encp dec freshf freshd st name fa b td,
+  known (eff_fmt name fa) = true ->
+  let d := freshd (files st) [] td in
+  flook (tpath d) (files st) = None -> name <> tpath d ->
+  let rc := run_compress known enc encp st name fa b CNone in
+  let h := run_hist known enc encp dec freshf freshd [BComp name fa b td] [Enter 0; Use 0; Leave 0 false]
+                    (mkN (files st) []) in
+  (forall p, flook p (n_fs (fst h)) = flook p (files (c_st rc))) /\ n_open (fst h) = [] /\
+  snd h = [OEnter false YTemp; OWrite; OLeave (raisedb (c_out rc))].
+Proof.
+  intros known enc encp dec freshf freshd st name fa b td K d FR NQ rc h.
+  destruct (compress_as_shape known enc encp (Some b) (eff_fmt name fa) name CNone) as (wr & o & SH).
+  assert (RC : files (c_st rc) = match wr with Some x => fwrite name x (files st) | None => files st end
+               /\ c_out rc = o).
+  { unfold rc. rewrite run_compress_known_eq by (assumption || discriminate). cbn [body_write].
+    pose proof (tmpdir_cycle st (Some b)) as T. cbv zeta in T.
+    destruct (T []) as (_ & _ & _ & F2 & R & _). rewrite R, F2, SH. cbn [c_st c_out].
+    split; [|reflexivity]. apply (T (match wr with Some x => fwrite name x (files st) | None => files st end)). }
+  destruct RC as [RC1 RC2]. rewrite RC1, RC2.
+  unfold h. cbn [run_hist step look nth_error n_open enter_blk n_fs live_dirs flat_map].
+  rewrite K. cbn [negb]. fold d.
+  cbn [look Nat.eqb n_open use_handle leave_handle n_fs del fst snd].
+  rewrite flook_fwrite_same, SH. cbn [fst snd n_fs n_open]. split; [|split; reflexivity].
+  intros p. destruct (str_eqb (tpath d) p) eqn:E.
+  - apply str_eqb_eq in E. subst p. rewrite flook_funlink_same.
+    destruct wr; [rewrite flook_fwrite_other by exact NQ|]; symmetry; exact FR.
+  - assert (tpath d <> p) by (intros E'; rewrite E', str_eqb_refl in E; discriminate).
+    rewrite flook_funlink_other by assumption.
+    destruct wr as [x|].
+    + destruct (str_eqb name p) eqn:E2.
+      * apply str_eqb_eq in E2. subst p. rewrite !flook_fwrite_same. reflexivity.
+      * assert (name <> p) by (intros E'; rewrite E', str_eqb_refl in E2; discriminate).
+        rewrite !flook_fwrite_other by assumption. reflexivity.
+    + rewrite !flook_fwrite_other by assumption. reflexivity.
+Qed.
+
 (* ------------------------------------------------------------------ the concrete oracle is fresh *)
 Lemma maxlen_ge : forall k l, In k l -> (List.length k <= maxlen l)%nat.
 Proof.
